@@ -26,6 +26,7 @@ constexpr uint64_t val(const term_value<char>& t) { char c = t.get_value(); retu
 constexpr uint64_t val(const term_value<std::string_view>& t) { return term_hash(t.get_value()[0] - 'a', t.get_value()); }
 constexpr uint64_t val(no_type) { return 0xe44044ULL; }
 template<int R> struct F { template<class... A> constexpr uint64_t operator()(A&&... a) const { uint64_t h = hcomb(0xabcd, uint64_t(R)); ((h = hcomb(h, val(a))), ...); return h; } };
+template<int R> struct G { template<class... A> constexpr uint64_t operator()(A&&...) const { return uint64_t(R); } };
 template<int R> struct FC { template<class C, class... A> constexpr uint64_t operator()(C&&, A&&... a) const { uint64_t h = hcomb(0xabcd, uint64_t(R)); ((h = hcomb(h, val(a))), ...); return h; } };
 // is T::run() a constant expression?  1 value / 0 empty / -1 not a constant expression
 template<class T, bool = (T::run().has_value(), true)> constexpr int probe(int) { return T::run().has_value() ? 1 : 0; }
@@ -46,6 +47,11 @@ template<class Fn> void big_stack(Fn fn) { pthread_attr_t at; pthread_attr_init(
 '''
 
 
+def nname(i, nN):
+    """nonterminal names are prefixes of each other and the longest is declared first, so a symbol lookup that accepts a prefix binds the wrong symbol"""
+    return "n" * (nN - i)
+
+
 def cstr(b):
     return '"' + "".join("\\%03o" % c for c in b) + '"'
 
@@ -55,7 +61,7 @@ def render_grammar(gi, case, with_cases=True):
     ns = "g%d" % gi
     nN = g["nN"]
     out = ["namespace %s {" % ns]
-    out.append("constexpr nterm<uint64_t> " + ", ".join('N%d("N%d")' % (i, i) for i in range(nN)) + ";")
+    out.append("constexpr nterm<uint64_t> " + ", ".join('N%d("%s")' % (i, nname(i, nN)) for i in range(nN)) + ";")
     terms = []
     for t, ti in enumerate(g["terms"]):
         ch = chr(ord('a') + t)
@@ -98,6 +104,7 @@ def render_grammar(gi, case, with_cases=True):
             opts = "parse_options{}.set_skip_whitespace(%s).set_skip_newline(%s)" % ("true" if inp["ws"] else "false", "true" if inp["nl"] else "false")
             out.append('  { std::printf("CASE %s %d ce=%%d:%%llu", hh::probe<c%d>(0), (unsigned long long)hh::cvalue<c%d>(0)); parse_options o = %s; static const char lit[] = %s;' % (ns, k, k, k, opts, lit))
             out.append('    hh::rt("cs", p, o, cstring_buffer(lit)); hh::rt("sb", p, o, string_buffer(std::string(lit, %d))); hh::rt("sv", p, o, string_view_buffer(std::string_view(lit, %d)));' % (n, n))
+            out.append('    { auto* b0 = new string_buffer(std::string(lit, %d)); auto* b1 = new string_buffer(std::move(*b0)); string_buffer b2(*b1); *b0 = string_buffer("#gone#"); *b1 = string_buffer("#gone as well, and long enough for the heap#"); delete b0; delete b1; hh::rt("sbc", p, o, b2); }' % n)
             out.append('    hh::rt("r_cs", *p2, o, cstring_buffer(lit)); hh::rt("r_sb", *p2, o, string_buffer(std::string(lit, %d))); hh::rt("r_sv", *p2, o, string_view_buffer(std::string_view(lit, %d))); std::printf("\\n"); }' % (n, n))
         out.append("  delete p2;")
         out.append("}")
@@ -137,8 +144,10 @@ def render_c17b(cases):
         for kind, which in variants[:6] + [variants[-1]]:
             ns = "b%d" % k
             out = ["namespace %s {" % ns]
-            out.append("constexpr nterm<uint64_t> " + ", ".join('N%d("N%d")' % (i, i) for i in range(nN)) + ";")
-            terms = ["'%s'" % chr(ord('a') + t) for t in range(g["nT"]) if not (kind == "term" and t == which)]
+            out.append("constexpr nterm<uint64_t> " + ", ".join('N%d("%s")' % (i, nname(i, nN)) for i in range(nN)) + ";")
+            # terms are string terms whose spellings are prefixes of each other, longest declared first (nothing is parsed here)
+            tsp = lambda t: '"%s"' % ("t" * (g["nT"] - t))
+            terms = [tsp(t) for t in range(g["nT"]) if not (kind == "term" and t == which)]
             nts = ["N%d" % i for i in range(nN) if not (kind == "nterm" and i == which)]
             rules = []
             first_rule_first_symbol = False
@@ -152,12 +161,12 @@ def render_c17b(cases):
                     elif s["t"] == g["nT"] + 1:
                         syms.append("error")
                     else:
-                        syms.append("'%s'" % chr(ord('a') + s["t"]))
+                        syms.append(tsp(s["t"]))
                         if kind == "term" and s["t"] == which and ri == 0 and si == 0:
                             first_rule_first_symbol = True
-                rules.append("N%d(%s) >= hh::F<%d>{}" % (r["lhs"], ", ".join(syms), r["slot"]))
+                rules.append("N%d(%s) >= hh::G<%d>{}" % (r["lhs"], ", ".join(syms), r["slot"]))
             out.append("struct M { static constexpr auto make() { return parser(N%d, terms(%s), nterms(%s), rules(\n    %s)); } };" % (
-                g["root"], ", ".join(terms) if terms else "'z'", ", ".join(nts), ",\n    ".join(rules)))
+                g["root"], ", ".join(terms) if terms else '"z"', ", ".join(nts), ",\n    ".join(rules)))
             out.append('void run() { int threw = 0; try { auto q = new auto(M::make()); delete q; } catch (const std::exception&) { threw = 1; } std::printf("BAD %s ce=%%d threw=%%d\\n", hh::probe_make<M>(0), threw); }' % ns)
             out.append("}")
             parts.append("\n".join(out))
@@ -168,6 +177,86 @@ def render_c17b(cases):
         parts.append("  %s::run();" % m["ns"])
     parts.append("}); return 0; }")
     return "\n".join(parts), meta
+
+
+# ---- C13: contexts through the DSL front end (operator order, >= / >>= mix) ---------------------------------------
+C13_PRELUDE = r"""
+namespace cc {
+struct Ctx { std::vector<int> seen; };
+inline int& missing() { static int m = 0; return m; }
+// callable with and without a context: a rule that silently lost its 'contextual' flag is observed at run time
+template<int R> struct FC2 {
+  template<class... A> uint64_t operator()(Ctx& c, A&&... a) const { c.seen.push_back(R); return hh::F<R>{}(a...); }
+  template<class... A> uint64_t operator()(const Ctx& c, A&&... a) const { (void)c; return hh::F<R>{}(a...); }
+  template<class... A> uint64_t operator()(no_type, A&&... a) const { return hh::F<R>{}(a...); }      // plain parse(): the context is no_type
+  template<class... A> uint64_t operator()(A&&... a) const { missing()++; return hh::F<R>{}(a...); }
+};
+}
+"""
+
+
+def c13_contextual(r):
+    return (r["slot"] % 2 == 1) and not r.get("default_functor")
+
+
+def render_c13(gi, case, rnd):
+    g = case["grammar"]
+    ns = "g%d" % gi
+    nN = g["nN"]
+    out = ["namespace %s {" % ns]
+    out.append("constexpr nterm<uint64_t> " + ", ".join('N%d("%s")' % (i, nname(i, nN)) for i in range(nN)) + ";")
+    terms = []
+    for t, ti in enumerate(g["terms"]):
+        ch = chr(ord('a') + t)
+        assoc = ["no_assoc", "ltor", "rtol"][ti["assoc"]]
+        if ti["prec"] != 0 or ti["assoc"] != 0:
+            out.append("constexpr char_term t%d('%s', %d, associativity::%s);" % (t, ch, ti["prec"], assoc))
+            terms.append("t%d" % t)
+        else:
+            terms.append("'%s'" % ch)
+    conflict_free = case["class"] != "precedence"
+    rules = []
+    forms = []
+    for r in g["rules"]:
+        syms = []
+        for sy in r["rhs"]:
+            if "n" in sy:
+                syms.append("N%d" % sy["n"])
+            elif sy["t"] == g["nT"] + 1:
+                syms.append("error")
+            else:
+                syms.append("'%s'" % chr(ord('a') + sy["t"]))
+        base = "N%d(%s)" % (r["lhs"], ", ".join(syms))
+        prec = r.get("prec")
+        if prec is None and conflict_free and rnd.random() < 0.5:
+            prec = rnd.choice([1, 2, -1])        # harmless in a conflict-free grammar: exercises operator[] in both orders
+        if r.get("default_functor"):
+            txt = base + ("[%d]" % prec if prec is not None else "")
+            forms.append("default")
+        else:
+            f = ("cc::FC2<%d>{}" % r["slot"]) if c13_contextual(r) else ("hh::F<%d>{}" % r["slot"])
+            op = ">>=" if c13_contextual(r) else ">="
+            if prec is not None and rnd.random() < 0.5:
+                txt = "(%s %s %s)[%d]" % (base, op, f, prec)
+                forms.append("functor-then-precedence")
+            else:
+                txt = "%s%s %s %s" % (base, "[%d]" % prec if prec is not None else "", op, f)
+                forms.append("precedence-then-functor" if prec is not None else "plain")
+        rules.append(txt)
+    out.append("#define C%d_ARGS N%d, terms(%s), nterms(%s), rules(\\\n    %s)" % (gi, g["root"], ", ".join(terms), ", ".join("N%d" % i for i in range(nN)), ", \\\n    ".join(rules)))
+    out.append("void run_all() {")
+    out.append("  auto p = new parser(C%d_ARGS);" % gi)
+    for k, inp in enumerate(case["inputs"]):
+        lit = cstr(bytes.fromhex(inp["hex"]))
+        n = len(bytes.fromhex(inp["hex"]))
+        opts = "parse_options{}.set_skip_whitespace(%s).set_skip_newline(%s)" % ("true" if inp["ws"] else "false", "true" if inp["nl"] else "false")
+        out.append('  { static const char lit[] = %s; cc::Ctx c; cc::missing() = 0; std::ostringstream os; auto r = p->context_parse(c, %s, string_view_buffer(std::string_view(lit, %d)), os);' % (lit, opts, n))
+        out.append('    const cc::Ctx cconst; std::ostringstream os2; auto r2 = p->context_parse(cconst, %s, string_view_buffer(std::string_view(lit, %d)), os2); int missing_ctx = cc::missing(); utils::no_stream ns; auto r3 = p->parse(%s, string_view_buffer(std::string_view(lit, %d)), ns);' % (opts, n, opts, n))
+        out.append('    std::printf("CTX %s %d acc=%%d missing=%%d same=%%d seen=", r.has_value() ? 1 : 0, missing_ctx, (r.has_value() == r2.has_value() && r.has_value() == r3.has_value() && (!r.has_value() || (r.value() == r2.value() && r.value() == r3.value()))) ? 1 : 0); for (int x : c.seen) std::printf("%%d,", x); std::printf("\\n"); }' % (ns, k))
+    out.append("  delete p;")
+    out.append("}")
+    out.append("}")
+    return "\n".join(out), forms
 
 
 COMPILERS = {
@@ -228,7 +317,7 @@ def emit_cases(seed, n, work):
 def run(pid, tier, seed, work, viol_dir, known_ids=()):
     t0 = time.time()
     excluded = {}
-    ncases = {"C07": {"quick": 32, "thorough": 320}, "C17": {"quick": 8, "thorough": 60}}[pid][tier]
+    ncases = {"C07": {"quick": 32, "thorough": 320}, "C17": {"quick": 8, "thorough": 60}, "C13": {"quick": 16, "thorough": 160}}[pid][tier]
     cases, log = emit_cases(seed % 0x7FFFFFFF or 1, ncases, work)
     if cases is None:
         print("HARNESS-BUILD-FAILED engine=e_grammar (emit)")
@@ -282,7 +371,7 @@ def run(pid, tier, seed, work, viol_dir, known_ids=()):
                     if d is None:
                         what = "program produced no result line (crashed?) rc=%s" % res.get("rc")
                     elif f11 and d["ce"].split(":")[0] == "-1" and d["cs"].startswith("EXC") and d["r_cs"].startswith("EXC") and all(
-                            d[tag].split(":")[0] == str(want_acc) and (not want_acc or d[tag].split(":")[1] == want_val) and d[tag].split(":")[2] == want_msg for tag in ("sb", "sv", "r_sb", "r_sv")):
+                            d[tag].split(":")[0] == str(want_acc) and (not want_acc or d[tag].split(":")[1] == want_val) and d[tag].split(":")[2] == want_msg for tag in ("sb", "sv", "sbc", "r_sb", "r_sv")):
                         excluded["F11"] = excluded.get("F11", 0) + 1
                         continue
                     else:
@@ -292,7 +381,7 @@ def run(pid, tier, seed, work, viol_dir, known_ids=()):
                         elif int(ce[0]) != want_acc or (want_acc and ce[1] != want_val):
                             what = "compile-time result differs from the reference (%s)" % cxx
                         else:
-                            for tag in ("cs", "sb", "sv", "r_cs", "r_sb", "r_sv"):
+                            for tag in ("cs", "sb", "sv", "sbc", "r_cs", "r_sb", "r_sv"):
                                 a, v, m = d[tag].split(":")
                                 if a == "EXC":
                                     what = "run-time parse (%s) threw: %s (%s)" % (tag, bytes.fromhex(m).decode("utf-8", "replace"), cxx)
@@ -318,6 +407,63 @@ def run(pid, tier, seed, work, viol_dir, known_ids=()):
                 lab("class:" + case["class"])
         for case in cases[:3]:
             samples.append({"grammar": case["grammar"]["text"], "class": case["class"], "inputs": [i["text"] for i in case["inputs"]][:8]})
+    elif pid == "C13":
+        import random
+        rnd = random.Random(seed)
+        jobs = []
+        forms_of = {}
+        for gi, case in enumerate(cases):
+            body, forms = render_c13(gi, case, rnd)
+            forms_of[gi] = forms
+            src = os.path.join(work, "ctx_%d.cpp" % gi)
+            text = PRELUDE + "#include <vector>\n" + C13_PRELUDE + body + "\nint main() { hh::big_stack([] { g%d::run_all(); }); return 0; }\n" % gi
+            open(src, "w").write(text)
+            jobs.append((gi, src, "clang++" if gi % 2 else "g++"))
+        with ThreadPoolExecutor(max_workers=16) as ex:
+            results = list(ex.map(lambda j: (j, compile_and_run(j[1], j[2])), jobs))
+        for (gi, src, cxx), res in results:
+            case = cases[gi]
+            if not res["compiled"]:
+                if res.get("timeout"):
+                    notes.append("compile of %s with %s hit the time ceiling (inconclusive)" % (os.path.basename(src), cxx))
+                    continue
+                vp = os.path.join(viol_dir, "%s_compile_%s_%s.json" % (pid, cxx.replace("+", "x"), hashlib.sha1(open(src, "rb").read()).hexdigest()[:10]))
+                json.dump({"check": pid, "kind": "program13", "compiler": cxx, "source": open(src).read(), "what": "generated program does not compile", "log": res["log"], "case": case, "gi": gi}, open(vp, "w"))
+                errs = [l for l in res["log"].splitlines() if "error" in l][:1]
+                violations.append(("a grammar mixing '>=' and '>>=' functors (with operator[] before or after the functor) does not compile with %s: %s" % (cxx, errs[0][:200] if errs else ""), vp))
+                continue
+            got = {}
+            for ln in res["out"].splitlines():
+                if ln.startswith("CTX "):
+                    w = ln.split()
+                    got[int(w[2])] = {"acc": int(w[3].split("=")[1]), "missing": int(w[4].split("=")[1]), "same": int(w[5].split("=")[1]), "seen": [int(x) for x in w[6].split("=")[1].split(",") if x]}
+            ctx_slots = {r["slot"] for r in case["grammar"]["rules"] if c13_contextual(r)}
+            for k, inp in enumerate(case["inputs"]):
+                evaluations += 1
+                want_seen = [sl for sl in inp.get("reduces", []) if sl in ctx_slots]
+                d = got.get(k)
+                what = None
+                if d is None:
+                    what = "program produced no result line (crashed?) rc=%s" % res.get("rc")
+                elif d["missing"]:
+                    what = "a functor attached with '>>=' was called without the caller's context (%d calls)" % d["missing"]
+                elif d["acc"] != (1 if inp["accept"] else 0):
+                    what = "context_parse outcome differs from the reference"
+                elif d["seen"] != want_seen:
+                    what = "contextual functors did not see the caller's context in reduction order"
+                elif not d["same"]:
+                    what = "parse, context_parse(non-const&) and context_parse(const&) disagree"
+                if what:
+                    vp = os.path.join(viol_dir, "%s_%s.json" % (pid, hashlib.sha1((json.dumps(case["grammar"]) + inp["hex"] + cxx).encode()).hexdigest()[:12]))
+                    json.dump({"check": pid, "kind": "program13", "compiler": cxx, "what": what, "observed": d, "expected_seen": want_seen, "input": inp, "source": open(src).read(), "gi": gi, "k": k, "forms": forms_of[gi]}, open(vp, "w"))
+                    violations.append((what + " (%s)" % cxx, vp))
+                    continue
+                if len(want_seen) >= 3:
+                    nontrivial.add((case["grammar"]["text"], inp["hex"]))
+            for fm in forms_of[gi]:
+                lab("rule-form:" + fm)
+            lab("compiler:" + cxx)
+        samples = [{"grammar": c["grammar"]["text"], "rule_forms": forms_of[i][:6]} for i, c in enumerate(cases[:3])]
     else:  # C17 (b)
         src = os.path.join(work, "bad_0.cpp")
         text, meta = render_c17b(cases)
@@ -376,6 +522,17 @@ def replay(path):
         print(res["log"][-1500:])
         return 1
     print(res["out"][:3000])
+    if d["kind"] == "program13":
+        k = d.get("k")
+        for ln in res["out"].splitlines():
+            if k is not None and ln.startswith("CTX g%d %d " % (d["gi"], k)):
+                w = ln.split()
+                missing = int(w[4].split("=")[1]); same = int(w[5].split("=")[1]); seen = [int(x) for x in w[6].split("=")[1].split(",") if x]
+                ok = (not missing) and same and seen == d["expected_seen"] and int(w[3].split("=")[1]) == (1 if d["input"]["accept"] else 0)
+                print("REPLAY %s %s" % (d["check"], "PASS" if ok else "FAIL"))
+                return 0 if ok else 1
+        print("REPLAY %s FAIL (no result)" % d["check"])
+        return 1
     if d["kind"] == "program":
         got = parse_case_lines(res["out"])
         case = d["cases"][0]
@@ -387,7 +544,7 @@ def replay(path):
             if g is None or g["ce"].split(":")[0] == "-1" or int(g["ce"].split(":")[0]) != want_acc or (want_acc and g["ce"].split(":")[1] != want_val):
                 bad += 1
                 continue
-            for tag in ("cs", "sb", "sv", "r_cs", "r_sb", "r_sv"):
+            for tag in ("cs", "sb", "sv", "sbc", "r_cs", "r_sb", "r_sv"):
                 a, v, m = g[tag].split(":")
                 if a == "EXC" or int(a) != want_acc or (want_acc and v != want_val) or m != inp["messages_hex"]:
                     bad += 1
